@@ -125,6 +125,13 @@ class Seams:
             self._set(mod, "threading", shim)
 
     # -- process-global state --------------------------------------------------------------------------
+    def install_consts(self, consts: Optional[Dict[str, Any]]) -> None:
+        """Per-run tuning knobs that are class constants of GeckoConstants (e.g. MAX_RF_ERRORS_BEFORE_HALT)."""
+        if consts:
+            const = importlib.import_module("geckolib.const").GeckoConstants
+            for name, value in sorted(consts.items()):
+                self._set(const, name, value)
+
     def reset_globals(self, tables: Optional[Dict[str, Dict[str, float]]] = None) -> None:
         """Reset config globals; optionally install per-run active/idle timing tables."""
         cfgmod = importlib.import_module("geckolib.config")
